@@ -1,0 +1,7 @@
+//go:build verif
+
+package complexity
+
+// VerifSafeAdd exposes safeAdd to the external verification harness.
+// It is compiled only with the build tag "verif" and is not part of the public API.
+func VerifSafeAdd(a, b int) int { return safeAdd(a, b) }
